@@ -38,6 +38,9 @@ type Op struct {
 	Ch   string   `json:"ch,omitempty"`
 	Var  string   `json:"var,omitempty"`
 	Val  string   `json:"val,omitempty"`
+	// Spell (setq only): how the user typed the assignment: "" (setq *v* x),
+	// "upper" (setq *V* x), "cap" (setq *Print-Base* x), "setf" (setf *v* x).
+	Spell string `json:"spell,omitempty"`
 	// clear, sclear: "lisp" = through the REPL's own functions, (clear-history :start A :end B)
 	// and (clear-stash ...), which reach the embedded Stash.Clear of the history
 	Via string `json:"via,omitempty"`
@@ -154,6 +157,27 @@ func linesOf(f repl.Form) []string {
 	return out
 }
 
+// spellSetq is the text of a setting change as the user typed it.
+func spellSetq(op Op) string {
+	switch op.Spell {
+	case "upper":
+		return fmt.Sprintf("(SETQ %s %s)", strings.ToUpper(op.Var), op.Val)
+	case "cap":
+		v := []byte(op.Var)
+		up := true
+		for i, c := range v {
+			if up && 'a' <= c && c <= 'z' {
+				v[i] = c - 32
+			}
+			up = c == '-' || c == '*'
+		}
+		return fmt.Sprintf("(setq %s %s)", v, op.Val)
+	case "setf":
+		return fmt.Sprintf("(setf %s %s)", op.Var, op.Val)
+	}
+	return fmt.Sprintf("(setq %s %s)", op.Var, op.Val)
+}
+
 // lispClear evaluates (clear-history ...) / (clear-stash ...) in the REPL scope the way a
 // user types it.
 func lispClear(fn string, a, b int) {
@@ -252,7 +276,7 @@ func sessMain(args []string) int {
 					st.Clear(op.A, op.B)
 				}
 			case "setq":
-				code := slip.ReadString(fmt.Sprintf("(setq %s %s)", op.Var, op.Val), repl.Scope())
+				code := slip.ReadString(spellSetq(op), repl.Scope())
 				code.Eval(repl.Scope(), nil)
 			}
 		}); e != nil {
@@ -389,7 +413,7 @@ func genOps(r *rand.Rand, n int, limit int, oddPct int, withClear bool) []Op {
 			case "*print-right-margin*", "*print-length*":
 				val = fmt.Sprint(20 + r.IntN(180))
 			}
-			ops = append(ops, Op{Kind: "setq", Var: v, Val: val})
+			ops = append(ops, Op{Kind: "setq", Var: v, Val: val, Spell: []string{"", "", "", "upper", "cap", "setf"}[r.IntN(6)]})
 		}
 	}
 	return ops
